@@ -178,6 +178,15 @@ def check_case(case, out, versions):
             has_ref = any(c09.is_ref(k) for k in params)
             for mode, extra in [(m, x) for m in ("abi", "expr")
                                 for x in (all_extras if has_ref and m == "abi" else [all_extras[(variant + len(params)) % 6]])]:
+                if variant == 1:
+                    # another caller asked the public helper for this signature's types before and modified the list
+                    # it was handed (it is a fresh list, legal to consume): the call's view of the signature must not move
+                    try:
+                        lst, _ret = pt.abi.type_specs_from_signature(sig)
+                        lst.clear()
+                        lst.append(pt.abi.Uint64TypeSpec())
+                    except Exception:
+                        pass
                 try:
                     text = pt.compileTeal(build_program(sig, params, given, mode, extra), pt.Mode.Application, version=ver)
                 except drive.PT_ERRORS as e:
